@@ -3,7 +3,7 @@
 (and report which other checks fire), restore /repo. Prints one line per seed; exit 1 if a target check misses."""
 import glob, json, os, subprocess, sys
 import os as _os
-_os.environ[\"VF_NO_EVIDENCE\"] = \"1\"
+_os.environ["VF_NO_EVIDENCE"] = "1"
 bad = 0
 for meta in sorted(glob.glob("/verif/seeded/*/meta.json")):
     m = json.load(open(meta))
